@@ -1,6 +1,7 @@
 package main
 
 import (
+	"go/constant"
 	"fmt"
 	"go/token"
 	"go/types"
@@ -514,6 +515,7 @@ func runC13(c *Ctx) {
 	c.withRule("R12", func() { checkChunkOffsetsCannotWrap(c, "R10") })
 	checkShortChunkEndsTransfer(c, "R13")
 	checkConcurrentCopyOnlyOfRegularFiles(c, "R14")
+	checkFillCountsEveryRead(c, "R15")
 
 	// R7: ReadFrom / ReadFromWithConcurrency leave the File offset at the end of the intact prefix
 	checkOffsetStores(c, "R7", map[string]bool{"(*File).ReadFrom": true, "(*File).readFromWithConcurrency": true})
@@ -1676,6 +1678,32 @@ func checkConcurrentCopyOnlyOfRegularFiles(c *Ctx, rule string) {
 	}
 	c.check(onlyViaEdges(wt, edges, isWorker), rule, "WriteTo pipeline only for regular files", p.Pos(wt.Pos()), "every path to the workers takes the regular side of isRegular(mode)",
 		"the concurrent pipeline of WriteTo can be entered for a file that is not regular: a short read of a device, FIFO or /proc-like file is then taken for the end of the file and the copy ends early with a nil error")
+	// and isRegular says "regular" for S_IFREG alone: run for every value of the type field, with and without permission bits
+	if ir := p.Func("isRegular"); ir == nil {
+		c.missing(rule, "isRegular")
+	} else if len(ir.Params) == 1 {
+		wrong, und := "", false
+		for t := int64(0); t < 16 && wrong == ""; t++ {
+			for _, perm := range []int64{0, 0o644, 0o7777} {
+				mode := t<<12 | perm
+				res := newEvaluator(p).run(ir, []evVal{evInt(mode, ir.Params[0].Type())}, 0)
+				if res.kind != "return" || len(res.vals) != 1 || res.vals[0].k != evConst || res.vals[0].c.Kind() != constant.Bool {
+					und = true
+					break
+				}
+				if got := constant.BoolVal(res.vals[0].c); got != (t == 8) {
+					wrong = fmt.Sprintf("isRegular(%#o) is %v", mode, got)
+					break
+				}
+			}
+		}
+		switch {
+		case und:
+			c.und(rule, "isRegular is true for S_IFREG alone", p.Pos(ir.Pos()), "isRegular cannot be evaluated")
+		default:
+			c.check(wrong == "", rule, "isRegular is true for S_IFREG alone", p.Pos(ir.Pos()), "evaluated for the 16 values of the type field", wrong+": the test that keeps devices, FIFOs, sockets and directories out of the concurrent pipeline lets some of them in (or keeps regular files out)")
+		}
+	}
 }
 
 // checkSequentialLoops (C13.R4, C01.R18): the loops that transfer chunk after chunk through readChunkAt / writeChunkAt.
